@@ -2,7 +2,7 @@
 """Behaviour-preserving refactorings (written by independent sub-agents, each verified bit for bit against the
 original code by its own equivalence script) are applied to /repo one at a time and ALL quick checks are run.
 
-  tools/harmless_check.py [name ...]        patches live in harmless/<name>/patch.diff
+  tools/harmless_check.py [--pids=C10,C11] [name ...]        patches live in harmless/<name>/patch.diff
 
 Expected: every check passes.  A VIOLATION with an -impl- replay on such a tree would be a false alarm of a
 direct oracle (to be corrected); a `no-failing-input-found` line is the documented cost of a bit-exact or
@@ -24,7 +24,11 @@ def sh(cmd, **kw):
 
 def main():
     hdir = os.path.join(ROOT, "harmless")
-    names = sys.argv[1:] or sorted(d for d in os.listdir(hdir) if os.path.isdir(os.path.join(hdir, d)))
+    args = sys.argv[1:]
+    pids = PIDS
+    if args and args[0].startswith("--pids="):
+        pids = args.pop(0)[7:].split(",")            # restrict to some properties (after a change of their checks)
+    names = args or sorted(d for d in os.listdir(hdir) if os.path.isdir(os.path.join(hdir, d)))
     rc, out = sh("git -C %s status --porcelain" % REPO)
     if out.strip():
         print("refusing: /repo has local changes\n" + out)
@@ -44,7 +48,7 @@ def main():
             res = {}
             try:
                 sh("git -C %s apply %s" % (REPO, patch))
-                for pid in PIDS:
+                for pid in pids:
                     rc, out = sh("./vcheck %s --tier quick" % pid, cwd=ROOT)
                     lines = [l for l in out.splitlines() if l.startswith(("VIOLATION", "PASS", "FAIL", "KNOWN", "ENVIRONMENT"))]
                     if rc == 0:
@@ -61,7 +65,8 @@ def main():
                     print("%-10s %s %s" % (name, pid, res[pid]), flush=True)
             finally:
                 sh("git -C %s checkout -- ." % REPO)
-            json.dump(res, open(os.path.join(hdir, name, "result.json"), "w"), indent=1)
+            if pids is PIDS:
+                json.dump(res, open(os.path.join(hdir, name, "result.json"), "w"), indent=1)
     finally:
         sh("git -C %s checkout -- ." % REPO)
         sh("python3 tools/py2v.py", cwd=ROOT)
